@@ -146,7 +146,13 @@ func main() {
 		return nil
 	})
 	// an accessor file added to package bindnode (overlay only)
-	replace[filepath.Join(*repo, "node", "bindnode", "zz_verif_access.go")] = filepath.Join(*shims, "bindnode_verif.go.txt")
+	// (which variant depends on whether the package, as it is in the working tree now, still keeps a
+	// package-level type system for inferred schemas)
+	accessor := "bindnode_verif_noglobal.go.txt"
+	if src, err := os.ReadFile(filepath.Join(*repo, "node", "bindnode", "infer.go")); err == nil && strings.Contains(string(src), "var defaultTypeSystem schema.TypeSystem") {
+		accessor = "bindnode_verif.go.txt"
+	}
+	replace[filepath.Join(*repo, "node", "bindnode", "zz_verif_access.go")] = filepath.Join(*shims, accessor)
 	// virtual shim packages inside the repo module
 	for _, s := range []string{"vos", "vrand", "vsched", "vsync"} {
 		replace[filepath.Join(*repo, "zzverif", s, s+".go")] = filepath.Join(*shims, s, s+".go.txt")
